@@ -40,9 +40,9 @@ def _p11a(ctx):
         pubs = {a.nid for a in x.atoms_on('QueueEntry.wraps', ops=WRITE_OPS)}
         fulls = {nid for (nid, si, rv) in x.aggs(r'TrySendError::Full$')}
         discs = {nid for (nid, si, rv) in x.aggs(r'TrySendError::Disconnected$')}
-        ready = [(nid, si) for (nid, si, rv) in x.aggs(r'AsyncSink::Ready$') if g.nodes[nid].inst == g.root_inst]
-        notready = [(nid, si) for (nid, si, rv) in x.aggs(r'AsyncSink::NotReady$') if g.nodes[nid].inst == g.root_inst]
-        serr = [(nid, si) for (nid, si, rv) in x.aggs(r'SendError::SendError$|mpsc::SendError') if g.nodes[nid].inst == g.root_inst]
+        ready = [(nid, si) for (nid, si, rv) in x.aggs(r'AsyncSink::Ready$') if x.home(nid) == g.root_inst]
+        notready = [(nid, si) for (nid, si, rv) in x.aggs(r'AsyncSink::NotReady$') if x.home(nid) == g.root_inst]
+        serr = [(nid, si) for (nid, si, rv) in x.aggs(r'SendError::SendError$|mpsc::SendError') if x.home(nid) == g.root_inst]
         ctx.floor('P11a', len(ready) + len(notready) + len(serr), 3, 'result constructions of Sink::start_send')
         for (nid, si) in ready:
             ok = x.dom(pubs, nid)
@@ -173,7 +173,7 @@ def _p11d(ctx):
                 else:
                     succ.add(c.nid)
             for (nid, si, rv) in x.aggs(r'Async::Ready$'):
-                if g.nodes[nid].inst != g.root_inst:
+                if x.home(nid) != g.root_inst:
                     continue
                 e = x.agg_expr(nid, si)
                 v = g.strip(e[4][0]) if e[4] else None
@@ -182,7 +182,7 @@ def _p11d(ctx):
                     ctx.add('P11c', 'T-MAP', r, ok, 'Ready(Some(v)) only after a successful commit' if ok else 'poll can yield a value without committing the position (it would be yielded again)',
                             flavour=fl, where=x.where_stmt(nid, si), sub='some')
             for (nid, si, rv) in x.aggs(r'Async::NotReady$'):
-                if g.nodes[nid].inst != g.root_inst:
+                if x.home(nid) != g.root_inst:
                     continue
                 pushes = set(x.ext_calls(r'VecDeque(::<.*>)?::push_(back|front)$'))
                 ok = x.dom(pushes, nid)
